@@ -54,6 +54,12 @@ CLAIMED = {
         text="Lean theorems for every enum layout and every integer: the reconstructed constants `(last explicit) + offset` equal the discriminants of Rust's rule (const_is_discriminant, induction with the (last, inc) invariant), try_from(n) = Ok(v) iff v is the field-less variant with discriminant n, otherwise Err (try_from_iff), round trip with the cast, repr detection. The model (repr, constant tokens, arms) is compared with the working-tree expansion on 3000 generated layouts incl. the impl header; 40 enums are run with the real macro over the whole i8/u8/i16/u16 domain (wider reprs: discriminants +-1 and extremes) against `variant as repr`",
         note="Lean kernel; model tied by differential run; rustc's const evaluation modelled as integer arithmetic; discriminant expressions enter the model as their value (the parenthesisation of the emitted tokens is covered by the token-level correspondence and the behaviour run)",
         ref="DESIGN.md §4 C12"),
+    "C13": dict(
+        level="proof",
+        technique="Lean 4 theorem over every permutation of the generated match arms + arm-set correspondence + exhaustive short strings with the real macro",
+        text="Lean theorems for every set of variant names, every lower-casing function and EVERY order of the emitted arms: parse(s) = Ok(v) iff v is a variant, s equals its name ignoring case and (no other variant shares the lower-cased name or s is the name exactly) (enum_parse_iff); own names round-trip; all other strings are rejected; newtypes return the field's result unchanged. The model's arm set is compared with the working-tree expansion on ~400 generated enums; 26 types (case-colliding groups, raw identifiers, non-ASCII names, 7 newtype field types) parse all strings up to length 3 over their alphabet with the real macro against an independent statement of the rule",
+        note="Lean kernel; model tied by differential run; str::to_lowercase is a parameter; first-match semantics of match-with-guards is the modelled fragment of Rust",
+        ref="DESIGN.md §4 C13"),
 }
 
 NOT_APPLICABLE = {}
